@@ -62,6 +62,8 @@ pub(crate) fn checked_div_rounded(
     let mut shift = n_frac_digits + divisor_n_frac_digits;
     match divident_n_frac_digits.cmp(&shift) {
         Ordering::Equal => {
+            #[cfg(feature = "verif-hooks")]
+            fpdec_core::verif::hit(fpdec_core::verif::DIVR_EQ);
             Some(i128_div_rounded(divident_coeff, divisor_coeff, None))
         }
         Ordering::Less => {
@@ -71,8 +73,12 @@ pub(crate) fn checked_div_rounded(
             if let Some(shifted_divident) =
                 checked_mul_pow_ten(divident_coeff, shift)
             {
+                #[cfg(feature = "verif-hooks")]
+                fpdec_core::verif::hit(fpdec_core::verif::DIVR_LESS_NARROW);
                 Some(i128_div_rounded(shifted_divident, divisor_coeff, None))
             } else {
+                #[cfg(feature = "verif-hooks")]
+                fpdec_core::verif::hit(fpdec_core::verif::DIVR_LESS_WIDE);
                 i128_shifted_div_rounded(
                     divident_coeff,
                     shift,
@@ -93,6 +99,8 @@ pub(crate) fn checked_div_rounded(
             if let Some(shifted_divisor) =
                 checked_mul_pow_ten(divisor_coeff, shift)
             {
+                #[cfg(feature = "verif-hooks")]
+                fpdec_core::verif::hit(fpdec_core::verif::DIVR_GREATER_FIT);
                 Some(i128_div_rounded(divident_coeff, shifted_divisor, None))
             } else if divident_coeff == 0 {
                 Some(0)
@@ -102,6 +110,8 @@ pub(crate) fn checked_div_rounded(
                 // the sign and on the relation of |quotient| to 1/2:
                 // 2 * |divident| <=> |divisor| * 10 ^ shift, or, with
                 // h = 10 ^ shift / 2, |divident| <=> |divisor| * h.
+                #[cfg(feature = "verif-hooks")]
+                fpdec_core::verif::hit(fpdec_core::verif::DIVR_GREATER_OVF);
                 let h = ten_pow(shift).unsigned_abs() >> 1;
                 let a = divident_coeff.unsigned_abs();
                 let b = divisor_coeff.unsigned_abs();
